@@ -10,7 +10,7 @@ import (
 	"verif/internal/tmpl"
 )
 
-func init() { Registry["C05"] = checkC05 }
+func init() { Registry["C05"] = withErrRules(checkC05, "read", "protocol/binary", "wire") }
 
 func findTemplate(mod *tmpl.Model, id string) *tmpl.Template {
 	for _, t := range mod.Templates {
